@@ -51,6 +51,22 @@ Theorem C16_injective : forall H, HashLen H -> forall n1 p1 k1 n2 p2 k2 pk db,
   n1 = n2 /\ p1 = p2 /\ k1 = k2.
 Proof. exact full_key_inj. Qed.
 
+(* across kinds, Map vs Sorted: a shared database key forces an 18-byte overlap of two hash prefixes
+   (hp H x = the 20-byte hash prefix of x) ... *)
+Theorem C16_map_vs_sorted_collision : forall H, HashLen H -> forall k p k' db, length p = 2%nat ->
+  to_db_sort_key H (KMap k) = Some db -> to_db_sort_key H (KSorted p k') = Some db ->
+  k = skipn 18 (hp H k') ++ k' /\ p = firstn 2 (hp H k) /\ skipn 2 (hp H k) = firstn 18 (hp H k').
+Proof. exact map_vs_sorted_collision. Qed.
+(* ... so under the explicit hash hypothesis NoShiftedOverlap (no k' whose hash prefix overlaps, shifted by
+   two bytes, the hash prefix of its own last-two-prefix-bytes ++ k') distinct logical sort keys of ANY
+   kinds never share a database key *)
+Theorem C16_injective_all_kinds : forall H, HashLen H -> NoShiftedOverlap H -> forall k1 k2 db,
+  key_wf k1 -> key_wf k2 -> to_db_sort_key H k1 = Some db -> to_db_sort_key H k2 = Some db -> k1 = k2.
+Proof. exact sort_key_inj_all_kinds. Qed.
+Theorem C16_hash_hypotheses_satisfiable :
+  let H := fun _ : bytes => [0; 0] ++ repeat 1 30 in HashLen H /\ NoShiftedOverlap H.
+Proof. cbv zeta. split; [intro x; reflexivity|intro k'; vm_compute; discriminate]. Qed.
+
 (* ---- sorted substates are ordered in the database first by their 2-byte sort prefix ---- *)
 Theorem C16_sorted_prefix_order : forall H, HashLen H -> forall p1 k1 p2 k2 d1 d2,
   length p1 = 2%nat -> length p2 = 2%nat ->
@@ -122,3 +138,6 @@ Print Assumptions C16_to_db_total.
 Print Assumptions C16_from_db_total_on_image.
 Print Assumptions C16_from_db_short_panics.
 Print Assumptions C16_nonvacuous.
+Print Assumptions C16_map_vs_sorted_collision.
+Print Assumptions C16_injective_all_kinds.
+Print Assumptions C16_hash_hypotheses_satisfiable.
